@@ -1,6 +1,6 @@
 ---------------------------- MODULE MC_XlsbStyles ----------------------------
 (* Every style table within the bounds: BrtFmt ids from FmtIds (below and above  *)
-(* 164, built-in date ids included for same-class overrides) in every order,     *)
+(* 164, built-in date ids included, with any class) in every order,     *)
 (* 1..MaxSxf style XFs (with date ids, they must not be counted), cell XFs over  *)
 (* FmtIds + XfOnlyIds, both date systems.  Each table is printed once; the       *)
 (* harness materialises it with one cell per (cell XF, encoding).                *)
@@ -15,7 +15,7 @@ VARIABLES t, done
 vars == <<t, done>>
 
 Classes == {"o", "dt", "td"}
-LegalFmt(id, cls) == BuiltinClass(id) = "o" \/ BuiltinClass(id) = cls
+LegalFmt(id, cls) == TRUE      \* any class may be declared under any id, built-in date ids included
 
 Init == t = [fmts |-> <<>>, sxfs |-> <<>>, xfs |-> <<>>, d1904 |-> FALSE] /\ done = FALSE
 
